@@ -194,9 +194,22 @@ func Discharge(obls []*Obl, timeoutS int, confirm bool, workers int) (disagreeme
 		if o.TimeoutS > 0 {
 			tmo = o.TimeoutS
 		}
+		hasQ := strings.Contains(o.Query(false), "(forall ")
+		if hasQ && !confirm {
+			// proof attempt from the ground facts alone (explicit instances of the
+			// quantified hypotheses are among them): dropping hypotheses is sound
+			// for proving, and quantifier-free queries are decided quickly
+			o2 := *o
+			o2.DropQuantified = true
+			g, _ := decide(dir, i+2000000, o2.Query(false), 15, false)
+			if g.status == "unsat" {
+				o.Result, o.Solver, o.TimeS = "unsat", g.solver+"(ground)", g.secs
+				return
+			}
+		}
 		best, allr := decide(dir, i, o.Query(true), tmo, confirm)
 		o.Result, o.Solver, o.TimeS = best.status, best.solver, best.secs
-		if best.status != "unsat" && best.status != "sat" && strings.Contains(o.Query(false), "(forall ") {
+		if best.status != "unsat" && best.status != "sat" && hasQ {
 			// undecided with quantified hypotheses: look for a candidate
 			// counterexample without them (believed only after replay)
 			o2 := *o
